@@ -3,5 +3,6 @@ CONSTANTS
   NMsgs = 64
   MaxOps = 8
   Buffers = {TRUE, FALSE}
+  Kinds = {"unbounded", "bounded", "ring", "prio", "segmented"}
 CHECK_DEADLOCK FALSE
 INVARIANTS NoDuplication NoLoss DeliveredOnlyReleased StashInOrder ReleaseOrder SendOrder
